@@ -61,6 +61,9 @@ type pair struct {
 
 	flipped bool
 	tbh     time.Duration // virtual time at which the link was black-holed
+	// slowServerApp > 0: the server application takes this long to handle every message of the client (the POST that
+	// carried it stays in flight meanwhile; the heartbeat's PONG travels in a POST of its own)
+	slowServerApp time.Duration
 }
 
 // flink wraps rig R3's link so that a fault script runs BEFORE the rig looks at its knobs for
@@ -120,6 +123,13 @@ func newPair(e *vsched.Exec, c itCfg, latency time.Duration, arm func(p *pair)) 
 		p.v.Do(func() { p.ssock = s })
 		return &eio.Callbacks{
 			OnPacket: func(ps ...*parser.Packet) {
+				if p.slowServerApp > 0 {
+					for _, pk := range ps {
+						if pk.Type == parser.PacketTypeMessage {
+							vsched.Sleep(p.slowServerApp)
+						}
+					}
+				}
 				p.v.Do(func() {
 					for _, pk := range ps {
 						switch pk.Type {
